@@ -156,6 +156,9 @@ pub struct Conn {
     /// While stalled: how many more bytes the local send buffer takes before writes
     /// block for good (the peer has stopped reading). None = no limit.
     pub c2s_stall_budget: Option<usize>,
+    /// The opcode byte of the next response frame sent on this connection is replaced by
+    /// this value (the rest of the frame stays intact).
+    pub corrupt_next_opcode: Option<u8>,
 
     // server -> client
     pub s2c_last_deliver: u64,
@@ -445,6 +448,13 @@ impl World {
         if let Some(s) = stream {
             self.conns[conn].cql.outstanding.remove(&s);
             self.conns[conn].cql.outstanding_markers.remove(&s);
+            if bytes.len() > 4 {
+                if let Some(op) = self.conns[conn].corrupt_next_opcode.take() {
+                    bytes[4] = op;
+                    self.fault(Fault::Corrupt);
+                    self.log(&format!("opcode_corrupted conn={conn} stream={s} opcode={op:#x}"));
+                }
+            }
         }
         let mut after: Option<CutKind> = None;
         let mut garbage = false;
@@ -923,6 +933,7 @@ async fn connect(
                 client_closed: false,
                 c2s_stalled: false,
                 c2s_stall_budget: None,
+                corrupt_next_opcode: None,
                 s2c_last_deliver: 0,
                 s2c_sent: 0,
                 s2c_delivered: 0,
